@@ -299,7 +299,7 @@ FUNCTIONS['_XLFN.QUARTILE.INC'] = FUNCTIONS['QUARTILE.INC'] = wrap_ufunc(
 def xstdev(args, ddof=1, func=np.std):
     if len(args) <= ddof:
         return Error.errors['#DIV/0!']
-    return func(args, ddof=ddof)
+    return convert_nan(func(args, ddof=ddof))
 
 
 FUNCTIONS['_XLFN.STDEV.S'] = FUNCTIONS['STDEV.S'] = wrap_func(functools.partial(
